@@ -67,6 +67,23 @@ def _tags(tu_text):
     return cm
 
 
+def _only_new_packet(contracts):
+    """The VP_QUEUE_OK macro and the contract of new_packet, without the contracts of the example's internal helpers."""
+    lines = contracts.split('\n')
+    out, keep = [], False
+    for l in lines:
+        if l.startswith('#define VP_QUEUE_OK') or l.startswith('/* the sample queue'):
+            out.append(l)
+            continue
+        if l.startswith('static int new_packet('):
+            keep = True
+        if keep:
+            out.append(l)
+            if l.strip() == ';':
+                keep = False
+    return '\n'.join(out) + '\n'
+
+
 def aaf_listener_jobs(model, tier, config='le'):
     import gen_contracts as G
     inc = [os.path.join(REPO, 'examples')]
@@ -122,15 +139,25 @@ __CPROVER_ensures(VP_QUEUE_OK) /*TAG C18:queue-stays-well-formed-for-the-next-da
         return Job('examples/aaf-listener/' + name, src, [], enforce=enforce, replace=replace,
                    owners={'post': ['C18'], 'safety': ['C18'], 'assigns': ['C18'], 'loop': ['C18']}, clause_map=_tags(src),
                    function='aaf-listener.c:' + enforce, kind='example', config=config, includes=inc, timeout=timeout, unwind=unwind,
-                   assumptions=AAF_ASSUME + list(extra_assume))
+                   assumptions=AAF_ASSUME + list(extra_assume), fallback=lambda: mono)
 
     common_havoc = '    expected_seq = nondet_u8(); vp_env_failed = 0; vp_mc_i = nondet_size();\n'
     queue_setup = ('    STAILQ_INIT(&samples);\n'
                    '    if (nondet_bool()) { struct sample_entry *e0 = __CPROVER_allocate(sizeof(*e0), 0); e0->entries.stqe_next = NULL;\n'
                    '                         samples.stqh_first = e0; samples.stqh_last = &e0->entries.stqe_next; }\n')
+    np_body = 'void harness(void)\n{\n' + common_havoc + queue_setup + '    new_packet(nondet_int(), nondet_int());\n    VP_CANARY();\n}\n'
+    # FALLBACK for all five obligations when the helper contracts no longer fit the helpers as written (changed signature,
+    # helper added or removed): new_packet enforced against its contract with the example's own helpers INLINED; only the
+    # library wrappers and the environment are replaced by contracts
+    mono_src = pre + _only_new_packet(contracts) + np_body
+    mono = Job('examples/aaf-listener/new_packet~monolithic-fallback', mono_src, [], enforce='new_packet',
+               replace=['recv', 'avtp_pdu_get', 'avtp_aaf_pdu_get', 'clock_gettime', 'timerfd_settime', 'malloc'],
+               owners={'post': ['C18'], 'safety': ['C18'], 'assigns': ['C18'], 'loop': ['C18'], 'unwind': ['C18']}, clause_map=_tags(mono_src),
+               function='aaf-listener.c:new_packet', kind='example-fallback', config=config, includes=inc, timeout=1800,
+               unwind={'schedule_sample': 1, 'new_packet': 1}, obj_bits=10,
+               assumptions=AAF_ASSUME + ['FALLBACK: helpers inlined instead of replaced by their contracts; the STAILQ_REMOVE search loop is closed by an unwinding assertion with bound 1'])
     jobs.append(mk('new_packet', 'new_packet',
-                   ['recv', 'is_valid_packet', 'avtp_aaf_pdu_get', 'get_presentation_time', 'schedule_sample'],
-                   'void harness(void)\n{\n' + common_havoc + queue_setup + '    new_packet(nondet_int(), nondet_int());\n    VP_CANARY();\n}\n'))
+                   ['recv', 'is_valid_packet', 'avtp_aaf_pdu_get', 'get_presentation_time', 'schedule_sample'], np_body))
     jobs.append(mk('is_valid_packet', 'is_valid_packet', ['avtp_pdu_get', 'avtp_aaf_pdu_get'],
                    'void harness(void)\n{\n' + common_havoc +
                    '    struct avtp_stream_pdu *pdu = __CPROVER_allocate(sizeof(struct avtp_stream_pdu), 0);\n'
@@ -214,16 +241,23 @@ __CPROVER_ensures(VP_QUEUE_OK) /*TAG C18:queue-stays-well-formed-for-the-next-da
         return Job('examples/cvf-listener/' + name, src, [], enforce=enforce, replace=replace,
                    owners={'post': ['C18'], 'safety': ['C18'], 'assigns': ['C18'], 'loop': ['C18']}, clause_map=_tags(src),
                    function='cvf-listener.c:' + enforce, kind='example', config=config, includes=inc, timeout=timeout, unwind=unwind,
-                   assumptions=CVF_ASSUME + list(extra_assume))
+                   assumptions=CVF_ASSUME + list(extra_assume), fallback=lambda: mono)
 
     hv = '    expected_seq = nondet_u8(); vp_env_failed = 0; vp_mc_i = nondet_size();\n'
     qs = ('    STAILQ_INIT(&nals);\n'
           '    if (nondet_bool()) { struct nal_entry *e0 = __CPROVER_allocate(sizeof(*e0), 0); e0->entries.stqe_next = NULL;\n'
           '                         nals.stqh_first = e0; nals.stqh_last = &e0->entries.stqe_next; }\n')
+    np_body = 'void harness(void)\n{\n' + hv + qs + '    new_packet(nondet_int(), nondet_int());\n    VP_CANARY();\n}\n'
+    mono_src = pre + _only_new_packet(contracts) + np_body
+    mono = Job('examples/cvf-listener/new_packet~monolithic-fallback', mono_src, [], enforce='new_packet',
+               replace=['recv', 'clock_gettime', 'timerfd_settime', 'malloc', 'memcpy'] + getters,
+               owners={'post': ['C18'], 'safety': ['C18'], 'assigns': ['C18'], 'loop': ['C18'], 'unwind': ['C18']}, clause_map=_tags(mono_src),
+               function='cvf-listener.c:new_packet', kind='example-fallback', config=config, includes=inc, timeout=1800,
+               unwind={'schedule_nal': 1, 'new_packet': 1}, obj_bits=10,
+               assumptions=CVF_ASSUME + ['FALLBACK: helpers inlined instead of replaced by their contracts; the STAILQ_REMOVE search loop is closed by an unwinding assertion with bound 1'])
     jobs.append(mk('new_packet', 'new_packet',
                    ['recv', 'is_valid_packet', 'get_presentation_time', 'get_h264_data_len', 'schedule_nal',
-                    'Avtp_Cvf_GetStreamDataLength', 'Avtp_Cvf_GetAvtpTimestamp'],
-                   'void harness(void)\n{\n' + hv + qs + '    new_packet(nondet_int(), nondet_int());\n    VP_CANARY();\n}\n'))
+                    'Avtp_Cvf_GetStreamDataLength', 'Avtp_Cvf_GetAvtpTimestamp'], np_body))
     jobs.append(mk('is_valid_packet', 'is_valid_packet', [g for g in getters if g not in ('Avtp_Cvf_GetStreamDataLength', 'Avtp_Cvf_GetAvtpTimestamp')],
                    'void harness(void)\n{\n' + hv + '    Avtp_Cvf_t *cvf = __CPROVER_allocate(sizeof(Avtp_Cvf_t), 0);\n    is_valid_packet(cvf);\n    VP_CANARY();\n}\n'))
     jobs.append(mk('get_h264_data_len', 'get_h264_data_len', ['Avtp_Cvf_GetStreamDataLength'],
